@@ -45,6 +45,9 @@ def positions_event(c):
     pos = None
     if c["explicit"]:
         pos = np.array([[float(frac(p[0])), float(frac(p[1]))] for p in c["pin"]], dtype=np.float64)
+        if c.get("gshape"):
+            params["grid_scan_shape"] = (1, len(c["pin"]))
+            params["scan_step_sizes"] = (1.0, 1.0)
     else:
         params["grid_scan_shape"] = (c["nx"], c["ny"])
         params["scan_step_sizes"] = tuple(float(frac(s)) for s in c["step"])
@@ -203,6 +206,32 @@ def window_ref(position, wshape, ashape):
     return np.ix_(rows, cols)
 
 
+def fourier_shift(a, d):
+    """independent sub-pixel shift of a 2-D array by d pixels (content moves towards larger indices for positive d)"""
+    kx = np.fft.fftfreq(a.shape[0])[:, None]
+    ky = np.fft.fftfreq(a.shape[1])[None, :]
+    return np.fft.ifft2(np.fft.fft2(a) * np.exp(-2j * np.pi * (kx * d[0] + ky * d[1])))
+
+
+def exit_candidates(obj, probe, pos, old, wshape):
+    """The exit waves O[window] x P(shifted) that put the probe centre at `pos`, for every consistent rounding of a half-integer
+    coordinate (down / up per axis): which pixel the window is centred on is a convention, that window pixel + sub-pixel shift
+    = position is not.  `old` is the previous position (the probe array handed in is already shifted by its fractional part)."""
+    import itertools as it
+    old_frac = old - np.round(old)
+    opts = []
+    for ax in range(2):
+        f = pos[ax] - np.floor(pos[ax])
+        opts.append([np.floor(pos[ax]), np.floor(pos[ax]) + 1.0] if abs(f - 0.5) < 1e-9 else [np.floor(pos[ax] + 0.5)])
+    out = []
+    for cx, cy in it.product(*opts):
+        centre = np.array([cx, cy])
+        sh = (pos - centre) - old_frac
+        p_s = fourier_shift(probe.astype(np.complex128), sh) if np.abs(sh).max() > 0 else probe.astype(np.complex128)
+        out.append(obj[window_ref(centre, wshape, obj.shape)].astype(np.complex128) * p_s)
+    return out
+
+
 def make_object(shape, rng, cdt):
     return ((0.8 + 0.4 * rng.random(shape)) * np.exp(1j * rng.uniform(-1.0, 1.0, shape))).astype(cdt)
 
@@ -222,6 +251,12 @@ STEP = {"one": 1.0, "half": 0.5}
 
 
 def update_event(c, seed):
+    import abtem
+    with abtem.config.set({"precision": "float64" if c["double"] else "float32"}):      # the sub-pixel shift kernels follow the precision
+        return _update_event(c, seed)
+
+
+def _update_event(c, seed):
     import scipy.ndimage
     from abtem.reconstruct import RegularizedPtychographicOperator as R
     rng = np.random.default_rng([seed, hash(json.dumps(c, sort_keys=True)) & 0xFFFF])
@@ -233,15 +268,16 @@ def update_event(c, seed):
             warnings.simplefilter("ignore")
             obj = make_object(oshape, rng, cdt)
             probe = make_probe(c["probe"], shape, rng, cdt)
-            pos = {"integer": (oshape[0] // 2, oshape[1] // 2), "wrapping": (1, oshape[1] - 1), "half": (oshape[0] // 2 + 0.5, 2.5),
+            pos = {"integer": (oshape[0] // 2, oshape[1] // 2), "wrapping": (1, oshape[1] - 1), "half": (4.5, 3.5), "half_b": (3.5, 6.5),
                    "fractional": (oshape[0] // 2 + 0.3, oshape[1] // 2 - 0.35)}[c["pos"]]
             pos = np.array(pos, dtype=np.float64)
-            old = np.array([float(shape[0] // 2), float(shape[1] // 2)])
+            old = np.array([float(shape[0] // 2), float(shape[1] // 2)]) + (np.array([0.25, -0.4]) if c["pos"] == "fractional" and c["fix_probe"] else 0.0)
             probes_s, exit_wave = R._overlap_projection(obj, probe.copy(), pos, old)
-            if c["pos"] in ("integer", "wrapping"):
-                truth_exit = obj[window_ref(pos, shape, oshape)].astype(np.complex128) * probe.astype(np.complex128)
-            else:
-                truth_exit = np.asarray(exit_wave).astype(np.complex128)     # sub-pixel: the operator's own forward model
+            # the truth comes from an independent numpy forward model; for half-integer coordinates every consistent rounding is a truth
+            cands = exit_candidates(obj, probe, pos, old, shape)
+            errs = [float(np.abs(np.asarray(exit_wave).astype(np.complex128) - t).max() / np.abs(t).max()) for t in cands]
+            truth_exit = cands[int(np.argmin(errs))]
+            ev["forward_ppb"] = ppb(min(errs))
             dp = np.abs(np.fft.fft2(truth_exit)).astype(np.float64 if c["double"] else np.float32)
             mod, sse = R._fourier_projection(exit_wave, dp, 0.0)
             o0, p0 = obj.copy(), np.asarray(probes_s).copy()
@@ -265,6 +301,12 @@ GRID = {1: (1, 1), 2: (1, 2), 4: (2, 2), 6: (2, 3)}
 
 
 def recon_trace(c, seed):
+    import abtem
+    with abtem.config.set({"precision": "float64" if c["double"] else "float32"}):
+        return _recon_trace(c, seed)
+
+
+def _recon_trace(c, seed):
     import scipy.ndimage  # noqa: F401
     from abtem.core.energy import energy2wavelength
     from abtem.reconstruct import RegularizedPtychographicOperator as R
@@ -300,6 +342,8 @@ def recon_trace(c, seed):
             if c["raster"]:
                 params["scan_step_sizes"] = (step_px[0] * samp, step_px[1] * samp)
                 op = R(pats.reshape((nx, ny) + shape).astype(np.float64), **kw)
+            elif c.get("stack4d"):
+                op = R(pats.reshape((nx, ny) + shape).astype(np.float64), positions=pospx * samp, **kw)
             else:
                 op = R(pats.astype(np.float64), positions=pospx * samp, **kw)
             state = {"j": -1}
@@ -480,7 +524,7 @@ def run(ctx: Ctx):
                     first.append(x)
             return first + others_[:rest]
         upd = strat(upd, lambda x: (x["pos"], x["fix_probe"], x["pcorr"], x["double"], x["alpha"]), 250)
-        rec = strat(rec, lambda x: (x["J"], x["raster"], x["truth"], x["double"], x["empty"]), 60)
+        rec = strat(rec, lambda x: (x["J"], x["raster"], x.get("stack4d"), x["truth"], x["double"], x["empty"]), 50)
     else:
         upd = upd[:4000]
         ctx.exhaustive = False
